@@ -833,6 +833,20 @@ func runC11(c *core.Ctx) core.Meta {
 			}
 			st7.Instances++
 			okG := g.Guarded(n, copySizeCut(prov, false))
+			if okG {
+				// the size that is tested is the size of the host value: Src of a host-to-device copy,
+				// Dst of a device-to-host copy (the other end is a device pointer, eight bytes whatever is copied)
+				host := "Src"
+				if strings.Contains(fname, "D2H") {
+					host = "Dst"
+				}
+				if !g.Guarded(n, hostSizeCut(prov, host)) {
+					okG = false
+					st7.Ob(false)
+					c.ReportAt("R11.7", fn, n.Instr.Pos(), "zero-length:size-of-other-end", "the empty-copy test of "+fname+" does not measure the command's "+host+" (the host value): the other end is a device pointer, whose size is never 0, so an empty copy is marked running and never completes")
+					continue
+				}
+			}
 			st7.Ob(okG)
 			st7.Sample("%s: IsRunning=true only for a non-empty copy: %v", fname, okG)
 			if !okG {
@@ -1466,5 +1480,74 @@ func checkSplitLoops(c *core.Ctx, st3 *core.RuleStat, rule string, pkgs []*PkgIn
 				}
 			}
 		}
+	}
+}
+
+// hostSizeCut: a zero test of binary.Size(v) or len(v) where v is the command's field `host`
+// (directly, or through a one-expression helper whose parameter is bound to it); the edge on
+// which the size is non-zero.
+func hostSizeCut(prov *core.Prov, host string) EdgeCut {
+	return func(n *core.Node, i int) bool {
+		ifi, ok := n.Instr.(*ssa.If)
+		if !ok {
+			return false
+		}
+		v, neg := stripNot(ifi.Cond)
+		var outer *ssa.Call
+		if body, ok := predicateBody(v); ok {
+			outer, _ = v.(*ssa.Call)
+			v2, n2 := stripNot(body)
+			v = v2
+			if n2 {
+				neg = !neg
+			}
+		}
+		b, ok := v.(*ssa.BinOp)
+		if !ok {
+			return false
+		}
+		x, y := b.X, b.Y
+		op := b.Op
+		if _, isK := core.ConstInt(x); isK {
+			x, y, op = y, x, mirrorCmp(op)
+		}
+		if z, isK := core.ConstInt(y); !isK || z != 0 {
+			return false
+		}
+		call, ok := core.StripConv(x).(*ssa.Call)
+		if !ok || len(call.Call.Args) == 0 {
+			return false
+		}
+		arg := call.Call.Args[0]
+		if mi, isMI := arg.(*ssa.MakeInterface); isMI {
+			arg = mi.X
+		}
+		if p, isP := arg.(*ssa.Parameter); isP && outer != nil {
+			for k, fp := range outer.Call.StaticCallee().Params {
+				if fp == p && k < len(outer.Call.Args) {
+					arg = outer.Call.Args[k]
+				}
+			}
+			if mi, isMI := arg.(*ssa.MakeInterface); isMI {
+				arg = mi.X
+			}
+		}
+		if !strings.HasSuffix(prov.Of(arg), "."+host) {
+			return false
+		}
+		d := 0
+		switch op {
+		case token.EQL, token.LEQ:
+			d = -1 // non-zero on the false edge
+		case token.NEQ, token.GTR:
+			d = 1
+		}
+		if neg {
+			d = -d
+		}
+		if d > 0 {
+			return i == 0
+		}
+		return d < 0 && i == 1
 	}
 }
